@@ -15,6 +15,7 @@ import (
 
 	"pgregory.net/rapid"
 
+	"github.com/krotik/ecal/cli/tool"
 	"github.com/krotik/ecal/interpreter"
 	"github.com/krotik/ecal/parser"
 	"github.com/krotik/ecal/scope"
@@ -30,6 +31,7 @@ type Case struct {
 	Root      string `json:"root"` // as given to FileImportLocator (relative to the harness cwd or $BASE-absolute)
 	Path      string `json:"path"`
 	ViaImport bool   `json:"via_import"` // through `import "<path>" as x` instead of Resolve
+	ViaCLI    bool   `json:"via_cli,omitempty"` // the locator is the one cli/tool's interpreter configures for -dir <root> (CreateRuntimeProvider)
 }
 
 var (
@@ -40,7 +42,9 @@ var (
 var segs = []string{"f", "r", ".", "..", "", "r x", "x.y"}
 
 // root forms; $P is replaced by the absolute cwd
-var roots = []string{"$P/r", "$P/r/", "r", "r/", "./r", ".", "r/r", "r/r/..", "r/../r", "../l6/r", "r//r", "$P/r/../r x"}
+// (r/lnk is a symbolic link with the RELATIVE target "r", i.e. the directory r/r: the statement is about the lexical
+// root, so for a root which is itself a link "inside" is judged against the directory the link names)
+var roots = []string{"$P/r", "$P/r/", "r", "r/", "./r", ".", "r/r", "r/r/..", "r/../r", "../l6/r", "r//r", "$P/r/../r x", "$P/r/lnk", "r/lnk"}
 
 const prefix = "v := \""
 
@@ -63,6 +67,9 @@ func TestMain(m *testing.M) {
 	}
 	// the root and its look-alike sibling get deeper trees
 	populate(filepath.Join(cwd, "r"), 6)
+	if err := os.Symlink("r", filepath.Join(cwd, "r", "lnk")); err != nil {
+		panic(err)
+	}
 	if err := os.Chdir(cwd); err != nil {
 		panic(err)
 	}
@@ -112,7 +119,14 @@ func absRoot(root string) string {
 	if !strings.HasPrefix(r, "/") {
 		r = cwd + "/" + r
 	}
-	return norm(r)
+	r = norm(r)
+	if st, err := os.Lstat(r); err == nil && st.Mode()&os.ModeSymlink != 0 {
+		// the root itself is a link: the directory it names
+		if t, err := filepath.EvalSymlinks(r); err == nil {
+			return t
+		}
+	}
+	return r
 }
 
 func inside(root, loc string) bool {
@@ -122,7 +136,21 @@ func inside(root, loc string) bool {
 func runCase(c Case) *hx.Failure {
 	rootArg := strings.ReplaceAll(c.Root, "$P", cwd)
 	ar := absRoot(c.Root)
-	il := &util.FileImportLocator{Root: rootArg}
+	var il util.ECALImportLocator = &util.FileImportLocator{Root: rootArg}
+	if c.ViaCLI {
+		interp := tool.NewCLIInterpreter()
+		dir, none, lvl := rootArg, "", "Error"
+		interp.Dir, interp.LogFile, interp.LogLevel = &dir, &none, &lvl
+		if f := hx.Guard(func() {
+			if err := interp.CreateRuntimeProvider("c17"); err != nil {
+				panic(err)
+			}
+		}); f != nil {
+			return f
+		}
+		go interp.RuntimeProvider.Cron.Stop() // never wait for Cron.Stop()
+		il = interp.RuntimeProvider.ImportLocator
+	}
 
 	var content string
 	var err error
@@ -159,7 +187,10 @@ func runCase(c Case) *hx.Failure {
 			nontrivial = true
 		}
 	}
-	key := fmt.Sprintf("%s|%s|%v", c.Root, c.Path, c.ViaImport)
+	key := fmt.Sprintf("%s|%s|%v|%v", c.Root, c.Path, c.ViaImport, c.ViaCLI)
+	if c.ViaCLI {
+		hx.E.Class("route.cli-configured-locator", 1)
+	}
 
 	// what the harness expects (evidence only)
 	target := norm(ar + "/" + c.Path)
@@ -237,6 +268,12 @@ func TestExhaustive(t *testing.T) {
 						return false
 					}
 				}
+				// every 7th through the locator which the command line tool configures for -dir <root>
+				if (len(p)+ri)%7 == 0 || (len(idx) <= 2 && strings.Contains(r, "lnk")) {
+					if !yield(Case{Root: r, Path: p, ViaCLI: true}) {
+						return false
+					}
+				}
 			}
 			if len(idx) == n {
 				return true
@@ -282,6 +319,7 @@ func TestProp(t *testing.T) {
 				root = "$P/" + root
 			}
 		}
-		return Case{Root: root, Path: strings.Join(parts, "/"), ViaImport: rapid.IntRange(0, 3).Draw(rt, "via") == 0}
+		via := rapid.IntRange(0, 5).Draw(rt, "via")
+		return Case{Root: root, Path: strings.Join(parts, "/"), ViaImport: via == 0, ViaCLI: via == 1}
 	}, runCase)
 }
